@@ -42,7 +42,7 @@ Proof. destruct L; constructor. Qed.
 Section Main.
 Variables (nS nA : nat) (P Rw : list (list (list Q))) (av : list (list bool)) (ab : list bool)
           (ini : list Q) (g : Q) (q0 : list (list Q)) (alpha eps : Q) (L : learner)
-          (evs : list (event Q)) (ikeys : list nat) (iq ipol : list (list Q)) (tol : Q).
+          (evs : list (event Q)) (ikeys : list nat) (iq ipol : list (list Q)) (tol atol : Q).
 
 Definition mQ : mdp Q := mk_mdp nS nA P Rw av ab ini g.
 Definition mR : mdp R := mk_mdp nS nA (map3 Q2R P) (map3 Q2R Rw) av ab (map Q2R ini) (Q2R g).
@@ -70,8 +70,8 @@ Qed.
 
 (* executed = proved: the boolean verdicts *)
 Theorem c10_check_transfer :
-  @c10_check Q NumQ mQ q0 alpha eps L evs ikeys iq ipol tol =
-  @c10_check R NumR mR (map2 Q2R q0) (Q2R alpha) (Q2R eps) L evsR ikeys (map2 Q2R iq) (map2 Q2R ipol) (Q2R tol).
+  @c10_check Q NumQ mQ q0 alpha eps L evs ikeys iq ipol tol atol =
+  @c10_check R NumR mR (map2 Q2R q0) (Q2R alpha) (Q2R eps) L evsR ikeys (map2 Q2R iq) (map2 Q2R ipol) (Q2R tol) (Q2R atol).
 Proof.
   apply list_R_bool_eq.
   apply (c10_check_R Q R QR NumQ NumR NumQR); try reflexivity;
@@ -94,10 +94,10 @@ Qed.
 
 Definition all_true6 : list bool := [true; true; true; true; true; true].
 
-Hypothesis Hchk : @c10_check Q NumQ mQ q0 alpha eps L evs ikeys iq ipol tol = all_true6.
+Hypothesis Hchk : @c10_check Q NumQ mQ q0 alpha eps L evs ikeys iq ipol tol atol = all_true6.
 
 Lemma chkR :
-  @c10_check R NumR mR (map2 Q2R q0) (Q2R alpha) (Q2R eps) L evsR ikeys (map2 Q2R iq) (map2 Q2R ipol) (Q2R tol)
+  @c10_check R NumR mR (map2 Q2R q0) (Q2R alpha) (Q2R eps) L evsR ikeys (map2 Q2R iq) (map2 Q2R ipol) (Q2R tol) (Q2R atol)
   = all_true6.
 Proof. rewrite <- c10_check_transfer. exact Hchk. Qed.
 
@@ -107,7 +107,7 @@ Theorem c10_main :
   valid_experience mR evsR = true /\
   (match L with LDouble => forall s, In s (qkeys qR) <-> In s ikeys | _ => qkeys qR = ikeys end) /\
   (forall s a, In s (qkeys qR) -> In a (acts mR s) ->
-     (Rabs (iqR s a - qval qR s a) <= Q2R tol * (1 + Rabs (qval qR s a)))%R) /\
+     (Rabs (iqR s a - qval qR s a) <= Q2R tol * (1 + Rabs (qval qR s a)) + Q2R atol)%R) /\
   (forall s a, (s < nS)%nat -> (a < nA)%nat ->
      (Rabs (ipolR s a - greedy_policy mR (mkQ ikeys iqR) s a)
       <= Q2R tol * (1 + Rabs (greedy_policy mR (mkQ ikeys iqR) s a)))%R).
@@ -152,10 +152,10 @@ Definition exIQD : list (list Q) := [[3#4; 21#8]; [2; 0]; [0; 0]].
 Definition exKeysD := [2%nat; 0%nat; 1%nat].
 
 Example ex_check_q :
-  @c10_check Q NumQ exM exQ0 (1#2) (1#20) LQ exEvs exKeys exIQ exPol (1#1000000000000) = all_true6.
+  @c10_check Q NumQ exM exQ0 (1#2) (1#20) LQ exEvs exKeys exIQ exPol (1#1000000000000) 0 = all_true6.
 Proof. vm_compute. reflexivity. Qed.
 Example ex_check_double :
-  @c10_check Q NumQ exM exQ0 (1#2) (1#20) LDouble exEvs exKeysD exIQD exPol (1#1000000000000) = all_true6.
+  @c10_check Q NumQ exM exQ0 (1#2) (1#20) LDouble exEvs exKeysD exIQD exPol (1#1000000000000) 0 = all_true6.
 Proof. vm_compute. reflexivity. Qed.
 
 Local Open Scope R_scope.
@@ -193,7 +193,7 @@ Qed.
 (* ... and the experience is valid, so absorbing entries stay 0 although initial_q says 5 there *)
 Example ex_valid : valid_experience (mR 3 2 exP exRw exAv exAb exIni (1#2)) (evsR exEvs) = true.
 Proof.
-  pose proof (c10_main 3 2 exP exRw exAv exAb exIni (1#2) exQ0 (1#2) (1#20) LQ exEvs exKeys exIQ exPol _ ex_check_q) as H.
+  pose proof (c10_main 3 2 exP exRw exAv exAb exIni (1#2) exQ0 (1#2) (1#20) LQ exEvs exKeys exIQ exPol _ _ ex_check_q) as H.
   apply H.
 Qed.
 
@@ -208,8 +208,8 @@ Proof.
 Qed.
 
 Theorem ex_nonvacuous :
-  @c10_check Q NumQ exM exQ0 (1#2)%Q (1#20)%Q LQ exEvs exKeys exIQ exPol (1#1000000000000)%Q = all_true6 /\
-  @c10_check Q NumQ exM exQ0 (1#2)%Q (1#20)%Q LDouble exEvs exKeysD exIQD exPol (1#1000000000000)%Q = all_true6 /\
+  @c10_check Q NumQ exM exQ0 (1#2)%Q (1#20)%Q LQ exEvs exKeys exIQ exPol (1#1000000000000)%Q 0%Q = all_true6 /\
+  @c10_check Q NumQ exM exQ0 (1#2)%Q (1#20)%Q LDouble exEvs exKeysD exIQD exPol (1#1000000000000)%Q 0%Q = all_true6 /\
   Forall (ev_ok (-1) 2) (evsR exEvs) /\
   valid_experience (mR 3 2 exP exRw exAv exAb exIni (1#2)%Q) (evsR exEvs) = true /\
   (forall L s a, -2 <= qval (qR 3 2 exP exRw exAv exAb exIni (1#2)%Q exQ0 (1#2)%Q (1#20)%Q L exEvs) s a <= 4) /\
